@@ -5,7 +5,7 @@ package main
 var c01SpecialDocs = []string{
 	`"2015-08-02"`, `"12:34:56"`, `"12:34:56+05:30"`, `"2015-08-02T12:34:56"`, `"2015-08-02 12:34:56-04"`, `"2015-08-02T12:34:56.789+00:00"`,
 	`["2015-08-02","x"]`, `-1.5`, `2.5`, `0`, `"1"`, `"1.5"`, `"x"`, `"true"`, `"t"`, `"-2"`, `[1,"a",null]`, `{"a":[1,2],"b":{"a":1}}`, `[[1,2],[3]]`,
-	`{"a":{"b":1}}`, `[0,1]`, `2147483648`, `10000000000`, `[1.5,-1]`, `{"a":"2015-08-02","b":"2015-08-03"}`, `[[1],[[2]]]`, `{"a":null,"b":[]}`,
+	`{"a":{"b":1}}`, `[0,1]`, `2147483648`, `1e308`, `[1e308,10]`, `{"a":1e308,"b":-1e308}`, `5e-324`, `9223372036854775807`, `[-9223372036854775808,1]`, `10000000000`, `[1.5,-1]`, `{"a":"2015-08-02","b":"2015-08-03"}`, `[[1],[[2]]]`, `{"a":null,"b":[]}`,
 }
 
 func c01Docs(k int) []docEntry {
